@@ -90,10 +90,40 @@ $(B)/rec_sim: $(NETB)/marker_begin.o $(NET_LIB_OBJS) $(NETB)/marker_end.o $(REC_
 	$(CXX) -no-pie -fsanitize=address,bounds,integer-divide-by-zero -o $@ $(NETB)/marker_begin.o $(NET_LIB_OBJS) $(NETB)/marker_end.o $(REC_BIND_OBJS) $(REC_SIM_OBJS) -lm
 rec: $(B)/rec_sim
 
+# ---------------------------------------------------------------- reent engine (C16): -O0, trace-loads/stores, no ASan
+REENTB := $(B)/reent
+REENT_REPO_CFLAGS := $(REPO_CFLAGS_COMMON) -O0 -fsanitize-coverage=trace-pc-guard,pc-table,trace-loads,trace-stores
+REENT_LIB_OBJS := $(patsubst $(REPO)/src/avtp/%.c,$(REENTB)/lib/%.o,$(LIB_SRCS))
+$(REENTB)/lib/%.o: $(REPO)/src/avtp/%.c $(REPO_HDRS) Makefile | dirs
+	@mkdir -p $(dir $@)
+	$(CC) $(REENT_REPO_CFLAGS) -c $< -o $@
+REENT_BIND_OBJS := $(patsubst $(GEN)/%.c,$(REENTB)/%.o,$(BIND_SRCS))
+$(REENTB)/bind_%.o: $(GEN)/bind_%.c bindings/bind.h $(REPO_HDRS) | dirs
+	@mkdir -p $(REENTB)
+	$(CC) -std=gnu99 -O1 -g -I$(REPO)/include -Ibindings -w -c $< -o $@
+REENT_DRV_OBJS := $(REENTB)/drv_can.o $(REENTB)/drv_canbrief.o $(REENTB)/drv_vss.o
+$(REENTB)/drv_%.o: engines/reent/drv_%.c engines/reent/drivers.h $(REPO_HDRS) | dirs
+	@mkdir -p $(REENTB)
+	$(CC) -std=gnu99 -O1 -g -I$(REPO)/include -Iengines/reent -w -c $< -o $@
+REENT_SIM_SRCS := sim/task.cc sim/driver.cc sim/symtab.cc sim/cov.cc engines/reent/reent.cc
+REENT_SIM_OBJS := $(patsubst %.cc,$(REENTB)/sim/%.o,$(REENT_SIM_SRCS))
+$(REENTB)/sim/%.o: %.cc $(wildcard sim/*.h spec/*.h bindings/*.h engines/reent/*.h) Makefile | dirs
+	@mkdir -p $(dir $@)
+	$(CXX) $(SIM_CXXFLAGS) -c $< -o $@
+$(REENTB)/marker_begin.o: sim/marker_begin.c | dirs
+	@mkdir -p $(REENTB)
+	$(CC) -O1 -c $< -o $@
+$(REENTB)/marker_end.o: sim/marker_end.c | dirs
+	@mkdir -p $(REENTB)
+	$(CC) -O1 -c $< -o $@
+$(B)/reent_sim: $(REENTB)/marker_begin.o $(REENT_LIB_OBJS) $(REENTB)/marker_end.o $(REENT_BIND_OBJS) $(REENT_DRV_OBJS) $(REENT_SIM_OBJS)
+	$(CXX) -no-pie -Wl,--wrap=memcpy -Wl,--wrap=memset -Wl,--wrap=memmove -o $@ $(REENTB)/marker_begin.o $(REENT_LIB_OBJS) $(REENTB)/marker_end.o $(REENT_BIND_OBJS) $(REENT_DRV_OBJS) $(REENT_SIM_OBJS) -lm
+reent: $(B)/reent_sim
+
 dirs:
 	@mkdir -p $(B) $(NETB)/lib $(NETB)/ex $(NETB)/sim evidence replays
 
 clean:
 	rm -rf $(B)
 
-.PHONY: net rec dirs clean
+.PHONY: net rec reent dirs clean
